@@ -202,7 +202,7 @@ CHECKS = {
         'Lean 4 theorems: for every source kind whose MEASURED isinstance facts fit (FactsFit, evaluated by the compiled model on '
         'facts measured from live instances on every run) the reading and the writing dispatcher take the branch the property requires, '
         'everything else is rejected; for every accepted kind carrying content b the parsed text is decode b (given gunzip(gzip b) = b), '
-        'so any two accepted kinds give the same loaded object for every parser. Tie: dispatcher-level acceptance + text for 8 listed '
+        'so any two accepted kinds give the same loaded object for every parser; WRITERS: for every accepted kind of target the content that lands is the text written and reads back through any accepted source as the same object (same_content_written, write_then_read). Tie: dispatcher-level acceptance + text for 8 listed '
         'and 8 junk kinds; the full product kinds x {load_minimal_ontology, load_ontology, SimpleHpoaDiseaseLoader.load, '
         'SimilarityContainer.from_csv} x contents (non-ASCII; the same path overwritten between loads; ".gz" inside a directory name) '
         'and targets x {SimilarityContainer.to_csv, AnnotationIcContainer.to_csv}; junk must give ValueError.',
